@@ -16,7 +16,7 @@
 (* distinct nodes to an integer weight (an undirected graph is a symmetric    *)
 (* E).  Extended integers are pairs: <<0,x>> finite, <<1,0>> +inf, <<2,0>>    *)
 (* -inf.                                                                      *)
-EXTENDS Integers, FiniteSets, Sequences, TLC, Json
+EXTENDS PathDefs, Json
 
 CONSTANTS MinN, MaxN,   \* graphs on nodes 1..nn for nn \in MinN..MaxN
           Directed,     \* BOOLEAN
@@ -29,18 +29,6 @@ CONSTANTS MinN, MaxN,   \* graphs on nodes 1..nn for nn \in MinN..MaxN
 
 VARIABLES nn, dg        \* node count; dg[j] = 0: pair j absent, c > 0: pair j has the c-th weight
 vars == <<nn, dg>>
-
-Fin(x) == <<0, x>>
-PInf == <<1, 0>>
-NInf == <<2, 0>>
-IsFin(e) == e[1] = 0
-
-Rng(s) == {s[i] : i \in DOMAIN s}
-Last(p) == p[Len(p)]
-Min(S) == CHOOSE x \in S : \A y \in S : x <= y
-
-RECURSIVE SortedSeq(_)
-SortedSeq(S) == IF S = {} THEN <<>> ELSE LET m == Min(S) IN <<m>> \o SortedSeq(S \ {m})
 
 (***************************** the graph of a case **************************)
 WSeq == SortedSeq(WCodes)
@@ -97,28 +85,12 @@ Tables(k, E) ==
 SimplePathsT(T, s, t) == {p \in T.as[s] : Last(p) = t}
 
 (************************* B: Bellman fixed point ***************************)
-INF == 100000000
-PredsOf(k, E) == [v \in 1 .. k |-> {q \in DOMAIN E : q[2] = v}]
-Relax(k, E, P, d) == [v \in 1 .. k |->
-    Min({d[v]} \cup {d[q[1]] + E[q] : q \in {r \in P[v] : d[r[1]] < INF}})]
-RECURSIVE Iter(_, _, _, _, _)
-Iter(k, E, P, d, r) == IF r = 0 THEN d
-                       ELSE LET d1 == Relax(k, E, P, d) IN IF d1 = d THEN d ELSE Iter(k, E, P, d1, r - 1)
-Dist0(k, s) == [v \in 1 .. k |-> IF v = s THEN 0 ELSE INF]
-DistB(k, E, P, s) == Iter(k, E, P, Dist0(k, s), k - 1)
-RECURSIVE Closure(_, _)
-Closure(E, S) == LET S1 == S \cup {q[2] : q \in {r \in DOMAIN E : r[1] \in S}}
-                 IN IF S1 = S THEN S ELSE Closure(E, S1)
-\* nodes that still relax in round |V| and everything reachable from them
-NegReachB(k, E, P, s) == LET d == DistB(k, E, P, s)
-                             d1 == Relax(k, E, P, d)
-                         IN Closure(E, {v \in 1 .. k : d1[v] < d[v]})
-\* the row of true weights from s
-RowB(k, E, P, s) == LET d == DistB(k, E, P, s)
-                        ng == NegReachB(k, E, P, s)
-                    IN [t \in 1 .. k |-> IF d[t] >= INF THEN PInf ELSE IF t \in ng THEN NInf ELSE Fin(d[t])]
+\* PathDefs.tla states the fixed point over adjacency lists (In[v]: set of <<u, w>> for every
+\* edge u -> v, Out[u]: set of successors); these are the lists of the weight function E
+InOf(k, E)  == [v \in 1 .. k |-> {<<q[1], E[q]>> : q \in {r \in DOMAIN E : r[2] = v}}]
+OutOf(k, E) == [u \in 1 .. k |-> {q[2] : q \in {r \in DOMAIN E : r[1] = u}}]
 TrueWB(k, E, s, t) == IF s \notin 1 .. k \/ t \notin 1 .. k THEN PInf
-                      ELSE RowB(k, E, PredsOf(k, E), s)[t]
+                      ELSE RowB(k, InOf(k, E), OutOf(k, E), s)[t]
 
 (******************************* the case space *****************************)
 E == EdgesOf(nn, dg)
@@ -219,6 +191,8 @@ EmitCase ==
          negedgefrom |-> [s \in 1 .. nn |-> \E q \in DOMAIN E : E[q] < 0 /\ q[1] \in T.ra[s]],
          anynegedge  |-> AnyNegEdge,
          sink  |-> [s \in 1 .. nn |-> Succ(E, s) = {}],
+         zcyc  |-> \E x, y \in 1 .. nn : /\ x # y /\ IsFin(T.tw[x][y]) /\ IsFin(T.tw[y][x])
+                                          /\ T.tw[x][y][2] + T.tw[y][x][2] = 0,
          sp    |-> T.ss,
          simple |-> [s \in 1 .. nn |-> [t \in 1 .. nn |-> PathRec(SimplePathsT(T, s, t))]],
          uniq  |-> [s \in 1 .. nn |-> [t \in 1 .. nn |-> UniqueFlag(T, s, t)]],
